@@ -291,6 +291,23 @@ func RunCheck(o CheckOpts) int {
 				defer wg2.Done()
 				defer func() { <-sem2 }()
 				r := results[i]
+				if len(r.obl.Alts) > 0 {
+					// the obligation split by the path that reaches the latch: every case proved proves the whole
+					all, ms := true, int64(0)
+					for k, a := range r.obl.Alts {
+						ra := Solve(dir, fmt.Sprintf("%d_%s_case%d", i, r.ID, k), a.Query(w), timeout, false)
+						ms += ra.Ms
+						if ra.Status != "unsat" {
+							all = false
+							break
+						}
+					}
+					r.Ms += ms
+					if all {
+						r.Status, r.Backend, r.ok = "unsat", "case-split", true
+						return
+					}
+				}
 				res := Solve(dir, fmt.Sprintf("%d_%s_retry", i, r.ID), r.obl.Query(w), 3*timeout, false)
 				if res.Status == "unsat" {
 					r.Status, r.Backend, r.Ms, r.res, r.ok = res.Status, res.Backend+"/retry", r.Ms+res.Ms, res, true
